@@ -542,6 +542,25 @@ func polName(p string) string {
 	return "PadPlainDNS"
 }
 
+// tinyRefusals returns the relay's own reports that it could not pack a payload of at most 64 bytes: no MTU of
+// at least 1280 makes such a payload too big, so the relay ran out of the buffer it allocated.
+func tinyRefusals(logs *observer.ObservedLogs) []string {
+	var out []string
+	for _, ent := range logs.All() {
+		if !strings.HasPrefix(ent.Message, "Failed to pack packet") {
+			continue
+		}
+		m := ent.ContextMap()
+		if n, ok := m["payloadLength"].(int64); ok && n <= 64 {
+			out = append(out, fmt.Sprintf("%s %v", ent.Message, m))
+		}
+	}
+	if len(out) > 3 {
+		out = out[:3]
+	}
+	return out
+}
+
 // runGroup starts the real relay service of one configuration on loopback sockets and pushes the group's cases
 // through it.
 func runGroup(t *testing.T, res *vio.Result, w *world, g *liveGroup, seed int64) {
@@ -662,6 +681,17 @@ func runGroup(t *testing.T, res *vio.Result, w *world, g *liveGroup, seed int64)
 	// the listener binds port 0; its address is what the service logs when it has started
 	obsCore, logs := observer.New(zap.InfoLevel)
 	logger := zap.New(obsCore)
+	brokenBefore := len(res.Broken)
+	defer func() {
+		// a datagram or fence that never arrives is a harness failure, unless the relay itself says that it could
+		// not pack a payload of a few bytes: then the buffer it computed is the finding
+		if ref := tinyRefusals(logs); len(ref) > 0 {
+			e := &expJ{C: caseJ{Dir: "-", Sp: g.Sp, Cp: g.Cp, Smtu: g.Smtu, Cmtu: g.Cmtu, Omtu: 1500, Lfam: g.Lfam, Ufam: g.Ufam, A: addrJ{K: "-"},
+				Opol: g.Opol, Rpol: g.Rpol, Psm: "adv", Allc: g.Allc}, St: "done"}
+			r.violation(e, "udp.live/fitting-datagram-dropped:"+codecName(g.Sp)+">"+codecName(g.Cp), fmt.Sprintf("the relay cannot pack a payload of a few bytes in the buffer it allocated: %v", ref), "forwarded", "dropped")
+			res.Broken = res.Broken[:brokenBefore]
+		}
+	}()
 	if os.Getenv("VERIF_C05_DEBUG") != "" {
 		dev, _ := zap.NewDevelopment()
 		logger = zap.New(zapcore.NewTee(obsCore, dev.Core()))
